@@ -23,7 +23,7 @@ PROPS = {
     'C06': ('4/C06', 'start/end are unbounded symbolic integers (or None); the oracle is transcribed from the statement; every builder receiver within the bounds; path tree exhausted.', ''),
     'C07': ('4/C07', 'start/end unbounded symbolic integers; selections present/absent/hidden/None; receivers with conflicting settings spanning the range end.', ''),
     'C08': ('4/C08', 'Operation table over builder operands; snapshots of operands before/after the call and after mutating the result and the source, with symbolic mutation ranges.', ''),
-    'C09': ('4/C09', 'Builder + one (thorough: two) operations from the public list with degenerate arguments under WITH_ASSERTIONS; exception types, receiver unchanged after errors, observation battery; bounded termination via per-path watchdog and line-event budget.', ''),
+    'C09': ('4/C09', 'Builder + one (thorough: two) operations from the public list with degenerate arguments under WITH_ASSERTIONS; exception types, receiver unchanged after errors, observation battery; bounded termination via per-path watchdog and concrete replay under a second alarm.', ''),
     'C10': ('4/C10', 'Base texts and arguments are symbolic strings over all of Unicode (bounded length), integer arguments unbounded; results compared with str itself on every path.', ''),
     'C11': ('4/C11', 'Symbolic texts and separators; piece offsets derived from the str result; per-character settings compared at the true offset for every path.', ''),
     'C12': ('4/C12', 'Padding methods and format specs on builder receivers with symbolic fill characters and widths (bounded above); text compared with format(), fill styles per statement; float floor(num/2) closed by a QF_BVFP lemma in z3 and cvc5.', '; direct SMT lemma (z3 + cvc5) for the float kernel'),
@@ -33,7 +33,7 @@ PROPS = {
     'C16': ('4/C16', 'format_matching/unformat_matching compared with apply/remove over re.finditer matches; count is an unbounded symbolic integer; texts symbolic for the simple regex family.', ''),
     'C17': ('4/C17', 'ansi_settings_at/settings_at/find_settings with unbounded symbolic indices and ranges against the statement transcribed over the per-character table.', ''),
     'C18': ('4/C18', 'parse_graphic_sequence + settings_to_dict compared with the reference terminal on code lists over a class alphabet plus one free code 0..256 at each position; three input shapes; both add_erroneous values.', ''),
-    'C19': ('4/C19', 'All strings up to the bound (any Unicode) x 3 constructor settings against an independent tokeniser; reconstruction equals the input; helpers with unbounded integers.', ''),
+    'C19': ('4/C19', 'All strings up to the bound (any Unicode) x 5 constructor settings against an independent tokeniser; reconstruction equals the input; helper texts for ALL integers by a direct SMT lemma over the AST (strings + LIA), recognition by the parser on boundary values.', '; direct SMT lemma (z3 + cvc5) for the helper texts'),
 }
 
 
@@ -50,7 +50,7 @@ def main():
                 'evidence_file': 'evidence/%s.json' % pid,
                 'replay_cmd_template': './check %s --replay {path}' % pid,
                 'engine': 'xh',
-                'level_claimed': {'category': 'model_checking', 'text': text + ' Bounded: holds for every value within the stated bounds, nothing is claimed outside them.', 'design_ref': 'DESIGN.md section ' + sec},
+                'level_claimed': {'category': 'model_checking', 'text': text + ' Bounded: holds for every value within the stated bounds, nothing is claimed outside them.', 'design_ref': 'DESIGN.md section ' + sec + ' and section 8 (as built)'},
                 'level_note': NOTE,
                 'technique': TECH + extra,
             })
